@@ -21,7 +21,10 @@ for sid in sorted(os.listdir(V + '/seeded')):
     fn = d.get('function', '?')
     if isinstance(fn, list):
         fn = ', '.join(fn)
-    what = (d.get('what_changed') or d.get('title') or '').replace('\n', ' ').replace('|', '/')
+    what = d.get('what_changed') or d.get('title') or ''
+    if isinstance(what, (list, tuple)):
+        what = '; '.join(str(x) for x in what)
+    what = str(what).replace('\n', ' ').replace('|', '/')
     rows.append('| %s | `%s` | %s | %s |' % (sid, fn[:70], what[:230], verdict))
 text = open(V + '/DESIGN.md').read()
 start = text.index('<!-- SEEDED-TABLE-BEGIN -->') + len('<!-- SEEDED-TABLE-BEGIN -->')
